@@ -1,4 +1,6 @@
 """C11 — FASTA/FASTQ indexing and random access: guards (DESIGN.md §5 C11)."""
+import re
+
 from .. import a10
 from .. import a5
 from .. import cfg as C
@@ -11,7 +13,8 @@ EXPLANATION = (
     "its line-skipping reader stops at the definition prefix; (R3) the indexer's two consistency comparisons lead to "
     "error exits and every Some(record) exit passes the last-line test; (R5) every fill_buf scanner of the FASTA/FASTQ "
     "readers is peek-1 / scan-in-loop / delegation (shared with C12)."
-    " (R6) FASTQ read_record resets the whole reused record through a field-complete Record::clear() before the appending line reads; (R7) append-buffer discipline of all FASTA/FASTQ readers and indexers, with the three public append-to-caller-buffer APIs tabled.")
+    " (R6) FASTQ read_record resets the whole reused record through a field-complete Record::clear() before the appending line reads; (R7) append-buffer discipline of all FASTA/FASTQ readers and indexers, with the three public append-to-caller-buffer APIs tabled."
+    " (R8) an LF scanner over a fill_buf window that strips a CR tests for it independently of whether the LF is in the same window.")
 ASSUMPTIONS = ["the offset arithmetic start / line_bases * line_width + start % line_bases is pinned by unit tests (value-level)"]
 NOT_DECIDED = ["offset arithmetic and CRLF accounting values (a `%` operand mutant survives the suite and this check)",
                "FASTA/FASTQ writer/reader record equality at every line width"]
@@ -123,6 +126,23 @@ def run(ctx):
 
     ctx.rule("C11.R7", "A10 append-buffer discipline: FASTA/FASTQ readers and indexers reset (or deliberately accumulate into) their buffers")
     a10.discipline_rule(ctx, "C11.R7", r"^<?noodles_(fasta|fastq)::(io|r#async)", 26)
+
+    ctx.rule("C11.R8", "A5d two-byte terminator across windows: a scanner that looks for LF in a fill_buf window and strips a CR tests for the CR "
+                      "on a path that does not require the LF to be in the same window (or on the accumulated buffer)")
+    n6 = 0
+    for s6 in a5.crlf_window_sites(fb):
+        if not re.search(r"noodles_fast[aq]::", s6["fn"]):
+            continue
+        n6 += 1
+        f6 = fb.fns[s6["fn"]]
+        ctx.saw_fn(f6)
+        if s6["ok"]:
+            ctx.ok("C11.R8", s6["fn"] + " :: CR handled independently of the window", "%d CR test(s), %d window-independent" % (len(s6["tests"]), len(s6["free"])), f6.loc(s6["free"][0]))
+        else:
+            ctx.violation("C11.R8", "C11.R8/cr-only-with-lf-in-window/" + f6.root,
+                          "%s strips the CR of a CRLF only in the branch where memchr found the LF in the same fill_buf window: when a refill "
+                          "boundary falls between CR and LF the CR is kept as data" % f6.root, f6.loc(s6["tests"][0]))
+    ctx.floor("C11.R8", "LF scanners with CR handling", n6, 2)
 
     ctx.rule("C11.R5", "A5d fill_buf scanners of FASTA/FASTQ are peek-1 / scan-in-loop / delegation")
     n = 0
